@@ -21,9 +21,10 @@ class LoopSpec:
     modified: names of local variables bound to heap containers the body mutates.
     inv(i, view, ctx) -> list of (name, z3 Bool); view maps each modified name to its payload term."""
 
-    def __init__(self, fingerprint, modified, inv, over="sequence", ghost=()):
+    def __init__(self, fingerprint, modified, inv, over="sequence", ghost=(), scalars=()):
         self.fingerprint, self.modified, self.inv = fingerprint, list(modified), inv
         self.ghost = list(ghost)      # ghost-state keys (z3 terms) the loop may change: havocked like `modified`
+        self.scalars = list(scalars)  # "obj.attr" boolean / integer fields the loop may assign: havocked as well
         self.over = over      # 'sequence': inv(i, ...) over a prefix length; 'members': inv(done, ...) over the
         #                       set of members already visited (iteration over a set / the keys of a dict, any order)
 
@@ -65,6 +66,11 @@ def _view(st, spec):
         v[name] = st.heap[_ref_of(st, name).oid].payload
     for key in spec.ghost:
         v[key] = st.ghost.get(key)
+    for name in spec.scalars:
+        base, attr = name.split(".", 1)
+        b = st.env.get(base)
+        fv = st.heap[b.oid].fields.get(attr) if isinstance(b, VRef) else None
+        v[name] = fv.t if isinstance(fv, (VBool, VInt)) else None
     return v
 
 
@@ -78,6 +84,18 @@ def _havoc(I, st, spec, tag):
     for key in spec.ghost:
         cur = st.ghost.get(key)
         st = st.gset(key, cx.fresh("%s@%s" % (key, tag), cur.sort()))
+    for name in spec.scalars:
+        base, attr = name.split(".", 1)
+        b = st.env.get(base)
+        h = st.heap[b.oid]
+        cur = h.fields.get(attr)
+        if isinstance(cur, VBool):
+            nv = VBool(cx.fresh("%s@%s" % (name, tag), z3.BoolSort()))
+        elif isinstance(cur, VInt):
+            nv = VInt(cx.fresh("%s@%s" % (name, tag), z3.IntSort()))
+        else:
+            raise Unsupported("loop-assigned field %s is not a bool/int" % name)
+        st = st.put(b.oid, h.with_field(attr, nv))
     return st
 
 
@@ -152,11 +170,13 @@ def run_members(I, node, ordinal, it, st, spec):
     return out
 
 
-def _frame(I, st3, frame_before, mod_oids, ordinal):
+def _frame(I, st3, frame_before, mod_oids, ordinal, ignore=()):
     for o, h in frame_before.items():
         h2 = st3.heap.get(o)
         if o not in mod_oids and h2 is not h:
-            same = z3.BoolVal(h2 is not None and h2.fields == h.fields and (h2.payload is None) == (h.payload is None))
+            f1 = {k: v for k, v in h.fields.items() if k not in ignore}
+            f2 = {k: v for k, v in (h2.fields if h2 is not None else {}).items() if k not in ignore}
+            same = z3.BoolVal(h2 is not None and f1 == f2 and (h2.payload is None) == (h.payload is None))
             if h2 is not None and h.payload is not None and h2.payload is not None:
                 same = z3.And(same, h2.payload == h.payload)
             I.require(st3, same, "inv-keep#%d:frame-nothing-else-modified" % ordinal)
@@ -200,14 +220,7 @@ def run(I, node, ordinal, it, st, spec):
             return I.block(node.body, st2)
         for (kind, payload, st3) in I.assign(node.target, elem, sth, body):
             if kind in ("next", "continue"):
-                for o, h in frame_before.items():
-                    h2 = st3.heap.get(o)
-                    if o not in mod_oids and h2 is not h:
-                        # frame of the invariant: everything but the declared variables is left as it was
-                        same = z3.BoolVal(h2 is not None and h2.fields == h.fields and (h2.payload is None) == (h.payload is None))
-                        if h2 is not None and h.payload is not None and h2.payload is not None:
-                            same = z3.And(same, h2.payload == h.payload)
-                        I.require(st3, same, "inv-keep#%d:frame-nothing-else-modified" % ordinal)
+                _frame(I, st3, frame_before, mod_oids, ordinal, ignore=[n.split(".", 1)[1] for n in spec.scalars])
                 for (nm, c) in spec.inv(i + 1, _view(st3, spec), st3):
                     I.require(st3, c, "inv-keep#%d:%s" % (ordinal, nm))
             elif kind in ("raise", "return"):
